@@ -83,7 +83,11 @@ def apply_op(op, st, args):
     return None
 
 
-def make_harness(op, s, shape, kinds, vname):
+def plain_factory(ex, elems, val, notifier):
+    return tso.TraitSet(elems, item_validator=val, notifiers=[notifier]), None
+
+
+def make_harness(op, s, shape, kinds, vname, factory=plain_factory):
     """shape: tuple of argument sizes; kinds: container kind per argument"""
     val = VALIDATORS[vname]
 
@@ -102,7 +106,7 @@ def make_harness(op, s, shape, kinds, vname):
                     ex.assume(elems[i] >= 0)
         else:
             ex.assume(len(set(elems)) == s and (vname == "ident" or all(e >= 0 for e in elems)))
-        ts = tso.TraitSet(elems, item_validator=val, notifiers=[notifier])
+        ts, extra = factory(ex, elems, val, notifier)
         before = set(ts)
         vars_before = sorted(vars(ts))
         raw = []
@@ -162,6 +166,8 @@ def make_harness(op, s, shape, kinds, vname):
         if exc_t is not None:
             ex.check(after == before, "failing operation changes nothing")
             ex.check(events == [], "failing operation is silent")
+        if extra is not None:
+            extra(ex, exc_t, ts)
         if after != before:
             ex.check(len(events) == 1, "exactly one event for a content change")
         else:
